@@ -62,7 +62,7 @@ def _place(n_per_res, centres, seed, scale=0.34, dmin=0.085):
 
 def build_peptide(md, seed=0, variant="pep"):
     """variant: pep (orthorhombic, per-frame varying cell), pep_tri (triclinic), pep_nocell, pep_heavy (no H),
-    pep_far (no cell, translated ~45 nm from the origin)."""
+    pep_far (no cell, translated ~45 nm from the origin), pepc_<name> (cell <name> of grids.cell_menu)."""
     top = md.Topology()
     centres = []
     spec = []
@@ -106,6 +106,10 @@ def build_peptide(md, seed=0, variant="pep"):
     elif variant == "pep_tri":
         xyz = xyz + np.array([0.4, 1.9, 0.3])
         kw = dict(unitcell_lengths=np.tile([2.9, 3.1, 3.4], (3, 1)), unitcell_angles=np.tile([75.0, 100.0, 115.0], (3, 1)))
+    elif variant.startswith("pepc_"):              # cells of the shared cell menu (3 nm class), system partly outside
+        cell = [c for c in grids.cell_menu(quick=True, unreduced=False) if c["name"] == variant[5:]][0]
+        xyz = xyz + np.array([1.3, 0.6, 2.2])
+        kw = dict(unitcell_lengths=np.tile(cell["lengths"], (3, 1)), unitcell_angles=np.tile(cell["angles"], (3, 1)))
     elif variant == "pep_far":
         xyz = xyz + np.array([31.7, -18.3, 25.1])
     elif variant != "pep_nocell":
